@@ -224,5 +224,13 @@ pub fn run(report: &Report) -> i32 {
         report.cases(24_000, 800_000),
         case,
     );
+    run_prop(
+        report,
+        "c05b-foreign-peer",
+        "the peer is the harness-written puppet advertising generated, mutually different limits (three per-stream windows, max_data, stream counts of 0..5), opening streams towards the victim and raising limits with MAX_STREAM_DATA / MAX_DATA / MAX_STREAMS; the victim application writes/finishes/resets on every stream it may write to; oracle: ledger of what the puppet has sent, per kind of stream; non-trivial = a write was cut short by a limit and stream data was sent",
+        super::c05b::arb_case,
+        report.cases(300_000, 10_000_000),
+        super::c05b::case,
+    );
     report.finish("generated-input search (proptest) against an independent credit ledger")
 }
